@@ -15,6 +15,7 @@ output list) and gen_delay* (what is delayed x what the duration is made of); se
 """
 import itertools
 import os
+import pickle
 import re
 import sys
 import traceback
@@ -27,6 +28,9 @@ for _v in ("OMP_NUM_THREADS", "OPENBLAS_NUM_THREADS", "MKL_NUM_THREADS"):
 import casadi as ca
 import numpy as np
 
+import pymoca.backends.casadi.model as _pmodel
+from pymoca.backends.casadi import generator
+
 from vk.paths import REPO
 from vk.report import Collector, EncodingGap, Report, run_parallel, std_args
 from vk.smt import equiv, modelio, ops, pipeline
@@ -34,6 +38,19 @@ from vk.smt.ast2z3 import elem_name
 from vk.smt.sx2z3 import sx2z3
 
 PROP = "C18"
+
+_PARSED = {}
+
+
+def _generate(text, options=None):
+    """generate() on a private copy of the parsed tree.  Every model text is compiled 3-5 times (unexpanded, expanded with
+    and without expand_mx, ...) and the ANTLR parse costs ~10x generate + simplify together, so the text is parsed once
+    per worker and every compile unpickles its own tree (what pymoca's parse cache hands out as well): no two compiles
+    ever share a tree."""
+    if text not in _PARSED:
+        _PARSED.clear()
+        _PARSED[text] = pickle.dumps(pipeline.parse_text(text))
+    return generator.generate(pickle.loads(_PARSED[text]), "M", dict(options or {}))
 
 MODELS = {
  "vec1d": """model M
@@ -330,6 +347,7 @@ def _value_kind(j, rot, lo, hi, dims):
 
 
 ATTR_SHAPES = [(3,), (2, 3), (3, 2), (2, 2), (1, 3), (3, 1), (1,), (1, 1)]
+BIG_SHAPES = [(12,), (2, 10), (11, 2), (10, 10)]
 
 
 def gen_attr_plain(dims, rot):
@@ -355,19 +373,19 @@ end M;
 """
 
 
-def gen_attr_compmod(rot, n_outer):
+def gen_attr_compmod(rot, n_outer, inner=3):
     """component array qq[n] (or a scalar component for n_outer = 0) holding arrays w[3], u[3], d[3] and a scalar y;
     all attributes come from modifications in M and are n x 3 / n expressions of M's parameters."""
     cd = (n_outer,) if n_outer else ()
-    dims, D1 = cd + (3,), _dd(cd) if cd else ""
+    dims, D1 = cd + (inner,), _dd(cd) if cd else ""
     m = lambda j, attrs: _attr_mods(j, attrs, rot, "lo", "hi", dims)
     ymod = f", y({_attr_mods(3, ['start', 'max'], rot, 'l1', 'h1', cd)})" if cd else ", y(start = 3 * p, max = p)"
     l1 = f"  parameter Real l1{D1} = {_lit(cd, 51)};\n  parameter Real h1{D1} = {_lit(cd, 71)};\n" if cd else ""
     return f"""model Q
-  Real w[3];
+  Real w[{inner}];
   Real y;
-  Real u[3];
-  parameter Real d[3];
+  Real u[{inner}];
+  parameter Real d[{inner}];
 equation
   der(w) = -w .* d + u;
   u = 2 * w;
@@ -385,22 +403,22 @@ end M;
 """
 
 
-def gen_attr_compinner(rot, n_outer):
+def gen_attr_compinner(rot, n_outer, inner=3):
     """the attributes are written INSIDE the component class in terms of its own array parameters; instantiating
     the class as qq[n] turns them into n x 3 symbolic attributes."""
     D1 = _dd((n_outer,)) if n_outer else ""
     # inside a component ARRAY pymoca turns the scalar parameter p into a vector (p * hi would be a matrix product,
     # which generate() rejects) and cannot replicate array literals, so those two kinds use literals / lo there
     # (3 * p becomes the literal 6.5, not 3 * 2: constant-folded scalar attributes are the known finding `const-expr-attr`)
-    m = lambda j, attrs: re.sub(r"\bp\b", "2", _attr_mods(j, attrs, rot, "lo", "hi", (3,), no_lit=True).replace("3 * p", "6.5")) \
-        if n_outer else _attr_mods(j, attrs, rot, "lo", "hi", (3,))
+    m = lambda j, attrs: re.sub(r"\bp\b", "2", _attr_mods(j, attrs, rot, "lo", "hi", (inner,), no_lit=True).replace("3 * p", "6.5")) \
+        if n_outer else _attr_mods(j, attrs, rot, "lo", "hi", (inner,))
     return f"""model Q
-  parameter Real lo[3];
-  parameter Real hi[3];
+  parameter Real lo[{inner}];
+  parameter Real hi[{inner}];
   parameter Real p;
-  Real w[3]({m(0, ['start', 'min', 'max', 'nominal'])});
-  Real a[3]({m(1, ['start', 'min', 'max', 'nominal'])});
-  parameter Real d[3]({m(2, ['min', 'max'])});
+  Real w[{inner}]({m(0, ['start', 'min', 'max', 'nominal'])});
+  Real a[{inner}]({m(1, ['start', 'min', 'max', 'nominal'])});
+  parameter Real d[{inner}]({m(2, ['min', 'max'])});
 equation
   der(w) = -w .* d + a;
   a = 2 * w + lo;
@@ -419,12 +437,17 @@ OUT_KINDS = ["S0", "S1", "S2", "A0", "A1", "A2"]        # S = differentiated sta
 _OUT_DIMS = {"0": [()], "1": [(2,), (3,)], "2": [(2, 2), (1, 2), (2, 3)]}
 
 
-def gen_outputs(seq, pad):
+# two-digit indices: x[10] sorts before x[2] as a string, [1,10] before [1,2]
+_OUT_DIMS_BIG = {"0": [()], "1": [(11,), (10,)], "2": [(2, 10), (10, 1), (11, 2)]}
+
+
+def gen_outputs(seq, pad, big=False):
     """outputs declared in the order `seq`; pad = 1 interleaves non-output arrays (a state and an algebraic one) so
     that positions in the variable lists and in `outputs` differ; pad = 2 additionally makes them `output`-free scalars."""
     decl, eqs = [], []
     for i, kd in enumerate(seq):
-        dims = _OUT_DIMS[kd[1]][i % len(_OUT_DIMS[kd[1]])]
+        tbl = _OUT_DIMS_BIG if big else _OUT_DIMS
+        dims = tbl[kd[1]][i % len(tbl[kd[1]])]
         nm = f"o{i}"
         if pad and i == 1:
             decl.append("  Real n1[2];" if pad == 1 else "  Real n1;")
@@ -485,6 +508,42 @@ def gen_delay(picks):
     return "model M\n" + _DELAY_HEAD + "\n".join(decl) + "\nequation\n" + _DELAY_EQS + "\n".join(eqs) + "\nend M;\n"
 
 
+BIG_DELAY_KINDS = ["vec", "vexpr", "mat", "matT", "loop", "mix", "many"]
+
+
+def gen_delay_big(n, kind, d):
+    """delays whose expanded names get two-digit indices or two-digit delay numbers (n >= 10): a delayed vector / vector
+    expression of n elements, 2 x n and n x 2 matrices, n delays from a for-loop, a big vector delay between scalar ones,
+    and n separate delay() calls (every third one of a 2-vector)."""
+    D = DELAY_DURS[d][1]
+    head = _DELAY_HEAD.replace("Real z[3]", f"Real z[{n}]").replace("Real x[3]", f"Real x[{n}]").replace("Real A[2,3]", f"Real A[2,{n}]")
+    head += f"  Real B[{n},2];\n  Real p2[2];\n"
+    eqs = _DELAY_EQS + "  der(B) = -B;\n  der(p2) = -p2;\n"
+    if kind == "vec":
+        decl, body = [f"Real y[{n}];"], [f"y = delay(x, {D});"]
+    elif kind == "vexpr":
+        decl, body = [f"Real y[{n}];"], [f"y = delay(2 * x + z, {D});"]
+    elif kind == "mat":
+        decl, body = [f"Real Y[2,{n}];"], [f"Y = delay(A, {D});"]
+    elif kind == "matT":
+        decl, body = [f"Real Y[{n},2];"], [f"Y = delay(B + B, {D});"]
+    elif kind == "loop":
+        decl, body = [f"Real y[{n}];"], [f"for i in 1:{n} loop\n    y[i] = delay(x[i] * i + z[i], {D});\n  end for;"]
+    elif kind == "mix":
+        decl = ["Real w0;", f"Real y[{n}];", "Real w1;", "Real Y[2,2];", f"Real y2[{n}];"]
+        body = ["w0 = delay(s, lag);", f"y = delay(x, {D});", f"w1 = delay(x[{n}] - s, 0.5);", "Y = delay(F, tau[1]);", f"y2 = delay(z .* x, {D});"]
+    else:
+        decl, body = [], []
+        for i in range(1, n + 1):
+            if i % 3 == 0:
+                decl.append(f"Real v{i}[2];")
+                body.append(f"v{i} = delay({i} * p2, {D});")
+            else:
+                decl.append(f"Real w{i};")
+                body.append(f"w{i} = delay(x[{i}] * {i}, {D if i % 2 else 'lag'});")
+    return "model M\n" + head + "".join(f"  {x}\n" for x in decl) + "equation\n" + eqs + "".join(f"  {x}\n" for x in body) + "end M;\n"
+
+
 def gen_delay_comp(n_dur, outer):
     """the delay and the array parameter its duration indexes live inside a component (flat names qq.tau[2])."""
     dur = ["tau[2]", "3 * tau[1]", "T[2,1]", "tau[1] + T[1,2]"][n_dur]
@@ -507,6 +566,82 @@ equation
   w = delay(qq.x[1], {'tau[2]' if outer else '2 * tau[1]'});
 end M;
 """
+
+
+# --- later passes over the expanded scalars: alias detection ---------------------------------------
+# start kinds of the two partners of a whole-array alias equation; "none" (never set) is what alias merging looks for
+ALIAS_STARTS = ["none", "lit", "dm", "each", "par", "expr"]
+ALIAS_PARTNERS = ["alg", "state", "input", "comp"]
+ALIAS_SHAPES = [(2,), (2, 3), (12,), (3,), (3, 2), (1,), (2, 2)]
+_ALIAS_CONST = ("lit", "dm", "each")
+
+
+def _alias_pairs(ka):
+    """start kinds of b that can be paired with start kind `ka` of a.  detect_aliases on UNEXPANDED arrays compares two
+    constant starts with `list/DM != MX` and takes its truth value, which raises for anything but two scalars (alias
+    merging itself, C16's subject): such a pair leaves no unexpanded model to compare the expansion with."""
+    return [kb for kb in ALIAS_STARTS if not (ka in _ALIAS_CONST and kb in _ALIAS_CONST and (ka, kb) != ("each", "each"))]
+
+
+def _alias_start(kind, dims, b, neg):
+    # for the same reason list literals are used only where the unexpanded alias merging can digest them (1-D, positive
+    # alias: it negates with `-1 * list` and converts with ca.MX(nested list)); elsewhere a DM-valued expression stands in
+    if kind == "lit" and (neg or len(dims) > 1):
+        kind = "dm"
+    return {"none": "", "lit": f"start = {_lit(dims, b)}", "dm": f"start = {_dm_expr(dims, b)}", "each": "each start = 1.5",
+            "par": "start = lo", "expr": "start = 2 * hi"}[kind]
+
+
+def gen_alias(dims, neg, ka, partner, swap):
+    """One alias pair a_k = [-]b_k (swap: b_k = [-]a_k) per admissible start kind of b_k; every a_k has start kind `ka`.
+    Both partners carry bounds / nominal / fixed of different kinds so that the merged attributes are visible element by
+    element.  partner: b_k is algebraic, a differentiated state, an input, or a_k lives inside a component (flat name c_k.a)."""
+    D = _dd(dims)
+    e1 = "[" + ",".join("1" for _ in dims) + "]"
+    sg = "-" if neg else ""
+    lists_ok = len(dims) == 1 and not neg
+    decl, eqs = [], []
+    for k, kb in enumerate(_alias_pairs(ka)):
+        amods = [_alias_start(ka, dims, 10 * k + 1, neg)]
+        bmods = [_alias_start(kb, dims, 10 * k + 5, neg)]
+        if k % 2 == 0:
+            amods.append("min = " + _lit(dims, -30 - k) if lists_ok else "min = -hi")
+        amods.append("each nominal = 2")
+        bmods.append("max = " + _lit(dims, 50 + k) if lists_ok else "max = 2 * hi")
+        if k % 3 == 0:
+            bmods.append("nominal = " + _lit(dims, 3) if lists_ok else "nominal = lo")
+        if k == 1 and partner != "input":
+            bmods.append("each fixed = true")
+        am = ", ".join(m for m in amods if m)
+        bm = ", ".join(m for m in bmods if m)
+        if partner == "comp":
+            decl.append(f"  Q c{k}(a({am}));")
+            a = f"c{k}.a"
+        else:
+            decl.append(f"  Real a{k}{D}({am});")
+            a = f"a{k}"
+        decl.append(f"  {'input ' if partner == 'input' else ''}Real b{k}{D}" + (f"({bm})" if bm else "") + ";")
+        eqs.append(f"  b{k} = {sg}{a};" if swap else f"  {a} = {sg}b{k};")
+        if partner == "state":
+            eqs.append(f"  der(b{k}) = -{k + 2} * b{k};")
+        elif partner != "input":
+            eqs.append(f"  b{k} = {k + 2} * x + lo;")
+    q = f"model Q\n  Real a{D};\nend Q;\n" if partner == "comp" else ""
+    a0 = "c0.a" if partner == "comp" else "a0"
+    return q + f"""model M
+  parameter Real lo{D} = {_lit(dims, 1)};
+  parameter Real hi{D} = {_lit(dims, 21)};
+  Real x{D}(start = {_lit(dims, 7)});
+  Real sa(start = 3);
+  Real sb;
+  output Real o{D};
+""" + "\n".join(decl) + f"""
+equation
+  der(x) = -x;
+  sa = {sg}sb;
+  sb = 2 * x{e1};
+  o = {a0} + x;
+""" + "\n".join(eqs) + "\nend M;\n"
 
 
 def family(tier):
@@ -545,6 +680,46 @@ def family(tier):
     for n_dur in range(4):
         for outer in (0, 1):
             items.append((f"delay-comp:{n_dur}:{outer}", gen_delay_comp(n_dur, outer)))
+    # (F) boundary sizes: 10 and more elements along a dimension, 10 and more components, 11 and more delays
+    for dims in BIG_SHAPES:
+        for rot in range(NK):
+            if thorough or rot % 6 == (len(dims) - 1):
+                items.append((f"big-attr:{'x'.join(map(str, dims))}:r{rot}", gen_attr_plain(dims, rot)))
+    for n_outer, inner in ((10, 3), (2, 11), (0, 12), (11, 10)):
+        for rot in range(0, NK, 3):
+            if thorough or (rot == 3 and n_outer != 11):
+                items.append((f"big-attr-compmod:{n_outer}x{inner}:r{rot}", gen_attr_compmod(rot, n_outer, inner)))
+                items.append((f"big-attr-compinner:{n_outer}x{inner}:r{rot}", gen_attr_compinner(rot, n_outer, inner)))
+    for n in (1, 2, 3):
+        for seq in itertools.product(OUT_KINDS, repeat=n):
+            if all(k[1] == "0" for k in seq):
+                continue
+            for pad in (0, 1):
+                if (n == 1 and pad) or (n == 3 and pad):
+                    continue
+                if thorough or (n <= 2 and pad == 0):
+                    items.append((f"big-out:{'.'.join(seq)}:pad{pad}", gen_outputs(seq, pad, big=True)))
+    for n in (9, 10, 11, 12, 23) if thorough else (10, 12):
+        for ki, kind in enumerate(BIG_DELAY_KINDS):
+            for d in range(nd) if thorough and n in (10, 12) else ((1, 3) if n == 10 else (5, 8)):
+                items.append((f"big-delay:{n}:{kind}:{DELAY_DURS[d][0]}", gen_delay_big(n, kind, d)))
+    # (G) a later pass reads the expanded scalars: whole-array aliases, the unexpanded and the expanded model both compiled
+    # with detect_aliases
+    for dims in ALIAS_SHAPES:
+        for neg in (0, 1):
+            for ia, ka in enumerate(ALIAS_STARTS):
+                for ip, partner in enumerate(ALIAS_PARTNERS):
+                    for swap in (0, 1):
+                        quick = dims in ALIAS_SHAPES[:3] and ip == (ia + len(dims)) % 4 and swap == (ia + neg) % 2
+                        if thorough or quick:
+                            mid = f"alias:{'x'.join(map(str, dims))}:{'neg' if neg else 'pos'}:{ka}:{partner}:{'swap' if swap else 'fwd'}"
+                            items.append((mid, gen_alias(dims, neg, ka, partner, swap), "alias"))
+                            if thorough and swap == 0:
+                                items.append((mid, gen_alias(dims, neg, ka, partner, swap)))
+    # (H) the expansion runs over an already expanded model: iterative_simplification, simplify() called twice
+    for mid, text in list(MODELS.items()) + [it for it in items if it[0].startswith(("delay-multi:", "big-delay:12:mix", "attr:2x3:r0", "out:S1.A2.S2:pad1"))][:6]:
+        for variant in ("iter", "twice"):
+            items.append((mid, text, variant))
     return items
 
 
@@ -644,12 +819,12 @@ def check_tensor(col, mid, text):
         opts = {"expand_vectors": True, "expand_mx": True} if mx else {"expand_vectors": True}
         case = f"{mid}|mx{mx}"
         try:
-            base = pipeline.real_generate(text, "M", opts)      # generated, not simplified: still holds the tensors
+            base = _generate(text, opts)      # generated, not simplified: still holds the tensors
         except Exception as e:
             col.append("unsupported_models", f"{mid}: {type(e).__name__}: {str(e)[:80]}")
             return
         try:
-            ex = pipeline.real_generate(text, "M", opts)
+            ex = _generate(text, opts)
             ex.simplify(dict(opts))
             ex.dae_residual_function, ex.variable_metadata_function
         except Exception as e:
@@ -713,26 +888,65 @@ def _replay(fa, names_a, oa, ka, fb, names_b, ob, kb, pt):
     return None
 
 
-def check(col, mid, text):
+# Observation points beyond "generate + one simplify({'expand_vectors': True})": the same comparison with a later
+# simplification pass consuming the expanded scalars (`extra` options given to BOTH the unexpanded and the expanded
+# compile: the expansion must commute with the pass), and with a second expansion pass over the already expanded model.
+VARIANTS = {
+    "alias": {"extra": {"detect_aliases": True}},           # alias merging reads start ("never set" marker), bounds, nominal, fixed, type
+    "iter": {"extra": {"iterative_simplification": True}},   # _simplify_once runs again while the number of algebraic states changes
+    "twice": {"extra": {}, "twice": True},                   # simplify(opts) called a second time on the expanded model
+}
+
+
+_DefaultValue = getattr(_pmodel, "_DefaultValue", ())
+
+
+def _is_unset(v):
+    """the Variable's attribute is pymoca's `never set` default marker (only `start` has one)"""
+    return isinstance(v, _DefaultValue)
+
+
+def _compile_base(text, bopts, generated=None):
+    """(unexpanded model, its four Functions or None, note); bopts None = generate() only (nothing to simplify)."""
+    base = generated or _generate(text, bopts)
+    if bopts:
+        base.simplify(dict(bopts))
     try:
-        base = pipeline.real_generate(text, "M")
-    except Exception as e:
-        col.append("unsupported_models", f"{mid}: {type(e).__name__}: {str(e)[:80]}")
-        return
-    try:
-        base_fns = (base.dae_residual_function, base.initial_residual_function, base.variable_metadata_function,
-                    base.delay_arguments_function)
-        base_note = ""
+        return base, (base.dae_residual_function, base.initial_residual_function, base.variable_metadata_function,
+                      base.delay_arguments_function), ""
     except Exception as e:
         # generate() succeeded but one of the unexpanded model's Functions cannot be built: there is nothing to compare
         # an expansion with, but an expansion that RAISES on such a model is still reported
-        base_fns = None
-        base_note = f" (a Function of the unexpanded model is unusable as well: {type(e).__name__}: {str(e)[-80:]})"
-    for opts in ({"expand_vectors": True}, {"expand_vectors": True, "expand_mx": True}):
-        case = f"{mid}|mx{int(bool(opts.get('expand_mx')))}"
+        return base, None, f" (a Function of the unexpanded model is unusable as well: {type(e).__name__}: {str(e)[-80:]})"
+
+
+def check(col, mid, text, variant=None):
+    var = VARIANTS[variant] if variant else {"extra": {}}
+    extra = var["extra"]
+    try:
+        decl = _generate(text)     # declarations as generated: shapes of every symbol, also of eliminated ones
+        decl_syms = {v.symbol.name(): v.symbol for cat in _CATS for v in getattr(decl, cat)}
+        if not extra:
+            base, base_fns, base_note = _compile_base(text, None, decl)
+    except Exception as e:
+        col.append("unsupported_models", f"{mid}: {type(e).__name__}: {str(e)[:80]}")
+        return
+    for mx in (0, 1):
+        opts = dict(extra, expand_vectors=True)
+        if mx:
+            opts["expand_mx"] = True
+        case = f"{mid}|{variant}|mx{mx}" if variant else f"{mid}|mx{mx}"
+        if extra:
+            try:
+                base, base_fns, base_note = _compile_base(text, dict(extra, expand_mx=bool(mx)))
+            except Exception as e:
+                col.append("unsupported_models", f"{case}: unexpanded model does not simplify with {extra}: {type(e).__name__}: {str(e)[:80]}")
+                continue
         try:
-            ex = pipeline.real_generate(text, "M", opts)
+            ex = _generate(text, opts)
             ex.simplify(dict(opts))
+            if var.get("twice"):
+                ex.simplify(dict(opts))
             ex_fns = (ex.dae_residual_function, ex.initial_residual_function, ex.variable_metadata_function,
                       ex.delay_arguments_function)
         except Exception as e:
@@ -776,14 +990,36 @@ def check(col, mid, text):
         # outputs / delay states
         want_out = []
         for o in base.outputs:
-            sym = next(v.symbol for v in base.states + base.alg_states if v.symbol.name() == o)
-            en = expected_names(sym)
+            en = expected_names(decl_syms[o])
             want_out += [a for a, _ in en] if en else [o]
         if list(ex.outputs) != want_out:
             col.violation(f"{case}:outputs", f"outputs {list(ex.outputs)}, expected {want_out}", {"model_text": text, "options": opts})
         want_delay = [n for d in base.delay_states for n in delay_map[d]]
         if sorted(ex.delay_states) != sorted(want_delay):
             col.violation(f"{case}:delay_states", f"delay states {list(ex.delay_states)}, expected {want_delay}", {"model_text": text, "options": opts})
+        elif list(ex.delay_states) != want_delay:
+            # same names: every delay state must stay in the position of the state it came from, elements in row-major order
+            # (delay_states[k] belongs to delay_arguments[k]; the pairing itself is decided by z3 below)
+            col.violation(f"{case}:delay_states:order", f"delay states {list(ex.delay_states)}, expected the order {want_delay}", {"model_text": text, "options": opts})
+        # aliases (non-empty only with detect_aliases): the alias set of element (i,j) is element (i,j) of every alias of the array
+        for cat in _CATS:
+            want_al = {}
+            for v in getattr(base, cat):
+                en = [a for a, _ in (expected_names(v.symbol) or [(v.symbol.name(), None)])]
+                sets = [set() for _ in en]
+                for al in v.aliases:
+                    sg, nm = ("-", al[1:]) if al.startswith("-") else ("", al)
+                    aen = [a for a, _ in (expected_names(decl_syms[nm]) or [(nm, None)])]
+                    if len(aen) != len(en):
+                        raise EncodingGap(f"{v.symbol.name()} has {len(en)} elements, its alias {nm} has {len(aen)}")
+                    for st, a in zip(sets, aen):
+                        st.add(sg + a)
+                want_al.update(zip(en, sets))
+            for v in getattr(ex, cat):
+                col.bump("alias_sets")
+                if set(v.aliases) != want_al.get(v.symbol.name(), set()):
+                    col.violation(f"{case}:aliases:{v.symbol.name()}", f"aliases of {v.symbol.name()} are {sorted(v.aliases)}, the unexpanded model gives {sorted(want_al.get(v.symbol.name(), set()))}",
+                                  {"model_text": text, "options": opts})
         # functions under the renaming
         names_b = modelio.model_in_names(base)
         names_e = [[rename.get(s.name(), s.name()) for s in g] for g in modelio.model_groups(ex)]
@@ -882,20 +1118,30 @@ def check(col, mid, text):
                             col.note_inconclusive(f"{case}:attr:{nm}:{ci} sat did not replay")
                     elif r == "unknown":
                         col.note_inconclusive(f"{case}:attr:{nm}:{ci} unknown")
-        # python types
+        # python types; the `never set` marker of start (its numeric value 0 is in the metadata compared above, the fact that
+        # it was never given is what detect_aliases / a user looks at) must be on exactly the elements of arrays that have it
         for cat in cats:
-            tb_ = {nm: v.python_type for v in getattr(base, cat) for nm in modelio.sym_elem_names(v.symbol)}
+            tb_ = {nm: v for v in getattr(base, cat) for nm in modelio.sym_elem_names(v.symbol)}
             for v in getattr(ex, cat):
-                if v.python_type is not tb_[rename[v.symbol.name()]]:
+                bv = tb_[rename[v.symbol.name()]]
+                if v.python_type is not bv.python_type:
                     col.violation(f"{case}:type:{v.symbol.name()}", "python type changed by expansion", {"model_text": text})
+                for a in _ATTRS:
+                    col.bump("unset_markers")
+                    if _is_unset(getattr(v, a)) != _is_unset(getattr(bv, a)):
+                        col.violation(f"{case}:unset:{v.symbol.name()}:{a}", f"attribute {a} of {v.symbol.name()} is {'the never-set default' if _is_unset(getattr(v, a)) else 'explicitly set (' + str(getattr(v, a)) + ')'}, "
+                                      f"on the unexpanded array it is {'the never-set default' if _is_unset(getattr(bv, a)) else 'explicitly set'}", {"model_text": text, "options": opts})
         col.bump("programs")
 
 
 def work(item):
-    mid, text = item
+    mid, text, variant = item if len(item) == 3 else item + (None,)
     col = Collector()
     try:
-        (check_tensor if mid.startswith("tensor:") else check)(col, mid, text)
+        if mid.startswith("tensor:"):
+            check_tensor(col, mid, text)
+        else:
+            check(col, mid, text, variant)
         col.sample({"model": mid, "text": text}, 1)
     except EncodingGap as g:
         col.append("encoding_gaps", f"{mid}: {g}")
@@ -917,8 +1163,9 @@ def main():
     cov["functions_encoded"] = ["Model._expand_vectors (via simplify, both code paths: with and without expand_mx)",
                                 "dae/initial residual, variable_metadata, delay_arguments Functions before and after"]
     classes = {}
-    for mid, _ in items:
-        k = mid.split(":")[0] if ":" in mid else "hand-written"
+    for it in items:
+        mid = it[0]
+        k = (mid.split(":")[0] if ":" in mid else "hand-written") + (f" x {it[2]}" if len(it) == 3 and it[2] else "")
         classes[k] = classes.get(k, 0) + 1
     cov["family_models_per_class"] = classes
     cov["bounds"] = (
